@@ -23,6 +23,8 @@ type EvalError struct {
 	// External is true when the failure was raised inside an environment
 	// function (an injected fault) rather than by the language semantics.
 	External bool
+	// inClosure is non-empty when the failure happened inside a closure body.
+	inClosure string
 }
 
 func (e *EvalError) Error() string { return e.Msg }
@@ -40,7 +42,14 @@ type Ref struct {
 func NewRef(env *Env) *Ref { return &Ref{env: env} }
 
 func (r *Ref) fail(n *N, format string, a ...interface{}) *EvalError {
-	return &EvalError{Node: n, Msg: fmt.Sprintf(format, a...)}
+	return &EvalError{Node: n, Msg: fmt.Sprintf(format, a...), inClosure: r.closureMark()}
+}
+
+func (r *Ref) closureMark() string {
+	if len(r.stack) > 0 {
+		return fmt.Sprintf("depth%d", len(r.stack))
+	}
+	return ""
 }
 
 // Eval evaluates n; on failure the returned value is nil.
@@ -258,7 +267,7 @@ func (r *Ref) guard(n *N, f func() interface{}) (v interface{}, err *EvalError) 
 	defer func() {
 		if rec := recover(); rec != nil {
 			v = nil
-			err = &EvalError{Node: n, Msg: fmt.Sprintf("external failure: %v", rec), External: true}
+			err = &EvalError{Node: n, Msg: fmt.Sprintf("external failure: %v", rec), External: true, inClosure: r.closureMark()}
 		}
 	}()
 	return f(), nil
